@@ -208,7 +208,7 @@ pub struct Cell {
     pub name: &'static str,
     pub who: Who,
     /// builds (value, params); None = no fixture (designated success not attempted)
-    pub build: Option<Box<dyn Fn(&Fix, &Address) -> (TokenAmount, Option<IpldBlock>) + Sync>>,
+    pub build: Option<Box<dyn Fn(&Fix, &Address) -> (TokenAmount, Option<IpldBlock>) + Sync + Send>>,
 }
 
 fn only(v: &[&'static str]) -> Who {
@@ -395,6 +395,63 @@ pub fn spec() -> Vec<Cell> {
         let p = fil_actor_power::CreateMinerParams { owner: f.who["stranger"], worker: f.who["worker"], window_post_proof_type: RegisteredPoStProof::StackedDRGWindow32GiBV1P1, peer: format!("peer-{caller}").into_bytes(), multiaddrs: vec![] };
         (crate::world::create_miner_deposit(&f.v), ser(&p))
     }));
+    // ---- read-only getters and remaining public methods
+    for (m, n) in [(Mk::GetDealDataCommitmentExported, "GetDealDataCommitment"), (Mk::GetDealProviderExported, "GetDealProvider"), (Mk::GetDealLabelExported, "GetDealLabel"), (Mk::GetDealTermExported, "GetDealTerm"), (Mk::GetDealTotalPriceExported, "GetDealTotalPrice"), (Mk::GetDealClientCollateralExported, "GetDealClientCollateral"), (Mk::GetDealProviderCollateralExported, "GetDealProviderCollateral"), (Mk::GetDealVerifiedExported, "GetDealVerified"), (Mk::GetDealActivationExported, "GetDealActivation")] {
+        c.push(cell!("market", m, n, Who::Any, move |f: &Fix, _| (zero(), ser(&fil_actor_market::DealQueryParams { id: f.deal_id }))));
+    }
+    c.push(cell!("power", Pw::MinerRawPowerExported, "MinerRawPower", Who::Any, move |f: &Fix, _| (zero(), ser(&fil_actor_power::MinerRawPowerParams { miner: f.who["miner"].id().unwrap() }))));
+    c.push(cell!("power", Pw::MinerPowerExported, "MinerPower", Who::Any, move |f: &Fix, _| (zero(), ser(&fil_actor_power::MinerPowerParams { miner: f.who["miner"].id().unwrap() }))));
+    c.push(cell!("power", Pw::MinerConsensusCountExported, "MinerConsensusCount", Who::Any, move |_, _| (zero(), None)));
+    c.push(cell!("miner", MinerM::GetPeerIDExported, "GetPeerID", Who::Any, move |_, _| (zero(), None)));
+    c.push(cell!("verifreg", Vr::ExtendClaimTerms, "ExtendClaimTerms(empty)", Who::Any, move |_, _| (zero(), ser(&fil_actor_verifreg::ExtendClaimTermsParams { terms: vec![] }))));
+    c.push(cell!("verifreg", Vr::RemoveExpiredClaims, "RemoveExpiredClaims", Who::Any, move |f: &Fix, _| (zero(), ser(&fil_actor_verifreg::RemoveExpiredClaimsParams { provider: f.who["miner"].id().unwrap(), claim_ids: vec![] }))));
+    c.push(cell!("verifreg", Vr::RemoveVerifiedClientDataCap, "RemoveVerifiedClientDataCap", only(&["rootmsig"])));
+    for (m, n) in [(fil_actor_datacap::Method::NameExported, "Name"), (fil_actor_datacap::Method::SymbolExported, "Symbol"), (fil_actor_datacap::Method::GranularityExported, "Granularity")] {
+        c.push(cell!("datacap", m, n, Who::Any, move |_, _| (zero(), None)));
+    }
+    c.push(cell!("account", fil_actor_account::Method::AuthenticateMessageExported, "AuthenticateMessage", Who::Any, move |f: &Fix, _| {
+        let msg = b"c11 message".to_vec();
+        (zero(), ser(&fil_actor_account::types::AuthenticateMessageParams { signature: sign(&f.keys[&f.who["account"]], &msg), message: msg }))
+    }));
+    c.push(cell!("msig", Ms::UniversalReceiverHook, "UniversalReceiverHook", Who::Any, move |_, _| (zero(), ser(&fvm_actor_utils::receiver::UniversalReceiverParams { type_: 0x1234, payload: RawBytes::new(vec![1, 2, 3]) }))));
+    // ---- the exported duplicates of restricted-range methods: same rule, second method number
+    {
+        let dups: Vec<(&'static str, u64, u64)> = vec![
+            ("miner", MinerM::ChangeWorkerAddress as u64, MinerM::ChangeWorkerAddressExported as u64),
+            ("miner", MinerM::ChangePeerID as u64, MinerM::ChangePeerIDExported as u64),
+            ("miner", MinerM::WithdrawBalance as u64, MinerM::WithdrawBalanceExported as u64),
+            ("miner", MinerM::ChangeMultiaddrs as u64, MinerM::ChangeMultiaddrsExported as u64),
+            ("miner", MinerM::ConfirmChangeWorkerAddress as u64, MinerM::ConfirmChangeWorkerAddressExported as u64),
+            ("miner", MinerM::RepayDebt as u64, MinerM::RepayDebtExported as u64),
+            ("miner", MinerM::ChangeOwnerAddress as u64, MinerM::ChangeOwnerAddressExported as u64),
+            ("lminer", MinerM::ChangeBeneficiary as u64, MinerM::ChangeBeneficiaryExported as u64),
+            ("miner", MinerM::GetBeneficiary as u64, MinerM::GetBeneficiaryExported as u64),
+            ("market", Mk::AddBalance as u64, Mk::AddBalanceExported as u64),
+            ("market", Mk::WithdrawBalance as u64, Mk::WithdrawBalanceExported as u64),
+            ("market", Mk::PublishStorageDeals as u64, Mk::PublishStorageDealsExported as u64),
+            ("verifreg", Vr::AddVerifiedClient as u64, Vr::AddVerifiedClientExported as u64),
+            ("verifreg", Vr::RemoveExpiredAllocations as u64, Vr::RemoveExpiredAllocationsExported as u64),
+            ("verifreg", Vr::GetClaims as u64, Vr::GetClaimsExported as u64),
+            ("verifreg", Vr::ExtendClaimTerms as u64, Vr::ExtendClaimTermsExported as u64),
+            ("verifreg", Vr::RemoveExpiredClaims as u64, Vr::RemoveExpiredClaimsExported as u64),
+            ("power", Pw::CreateMiner as u64, Pw::CreateMinerExported as u64),
+        ];
+        let n0 = c.len();
+        for (t, base, exported) in dups {
+            for i in 0..n0 {
+                if c[i].target == t && c[i].method == base {
+                    if let Some(b) = c[i].build.take() {
+                        let shared: std::sync::Arc<dyn Fn(&Fix, &Address) -> (TokenAmount, Option<IpldBlock>) + Sync + Send> = std::sync::Arc::from(b);
+                        let (s1, s2) = (shared.clone(), shared);
+                        c[i].build = Some(Box::new(move |f: &Fix, a: &Address| s1(f, a)));
+                        let name: &'static str = Box::leak(format!("{}(exported)", c[i].name).into_boxed_str());
+                        let who = c[i].who.clone();
+                        c.push(Cell { target: t, method: exported, name, who, build: Some(Box::new(move |f: &Fix, a: &Address| s2(f, a))) });
+                    }
+                }
+            }
+        }
+    }
     // ---- EVM / EAM / accounts
     c.push(cell!("evm", fil_actor_evm::Method::GetBytecode, "GetBytecode", Who::Any, move |_, _| (zero(), None)));
     c.push(cell!("evm", fil_actor_evm::Method::GetBytecodeHash, "GetBytecodeHash", Who::Any, move |_, _| (zero(), None)));
